@@ -378,6 +378,20 @@ Theorem C05_proxy :
 Proof. exact proxy_fetch_spec. Qed.
 Print Assumptions C05_proxy.
 
+(* over ALL histories of fetches through one proxy: the cache invariant, and what a cache
+   hit serves *)
+Theorem C05_proxy_histories :
+  forall (H : str -> str -> str),
+    (forall m, proxy_reach H m ->
+       forall d bs, mem_get m d = Some bs -> matches_desc H (d_dg d) (d_sz d) bs) /\
+    (forall limit stop m d comb evs ks rs ce m' bs,
+       proxy_reach H m -> mem_get m d = Some bs ->
+       proxy_fetch H limit stop m d comb evs ks = ((rs, ce), m') ->
+       matches_desc H (d_dg d) (d_sz d) bs /\ m' = m /\ ce = None /\
+       exists rest, bs = concat (map fst rs) ++ rest).
+Proof. exact proxy_histories. Qed.
+Print Assumptions C05_proxy_histories.
+
 (* concurrent pushes into one OCI layout (any number of threads, any descriptors --
    in particular good and bad content under one digest --, any schedule of their
    Stat / CreateTemp / Write / Remove / Rename micro-steps): at every instant every
